@@ -240,8 +240,40 @@ def stability(ctx):
     ctx.bounds["stability"] = "5 library-written files x all histories of length <= 2 over %s, then a full read" % single
 
 
+def alloc_part(ctx):
+    """third part (allocator seam): the open repeated with each single allocation answered with NULL - an open that still
+    succeeds must report exactly what the healthy open reports (a field silently left empty is a wrong report)"""
+    import universe
+    from universe import Cfg
+    D = universe.DELTA_DICT
+    specs_ = [("abc", Cfg(0, b"", 0, 3, 1)), ("aab", Cfg(2, b"", 0, 3, 1)), ("abca", Cfg(2, D, 0, 1, 1)), ("abb", Cfg(2, D, 1, 2, 0)), ("dcd", Cfg(0, D, 1, 1, 0))]
+    files = universe.lib_files(specs_, ctx.seed)
+    files += [universe.detach(files[2]), universe.detach(files[0])]
+    names = ["%s:%s" % (w, c.name()) for w, c in specs_] + ["abca:detached", "abc:detached"]
+    cs = core.drv("meta", "allocfail 1\n" + "\n".join("file %s" % f.hex() for f in files) + "\n")
+    crashed = 0
+    tot = 0
+    for nm, f, c in zip(names, files, cs):
+        a = c.first("A")
+        if not c.done or a is None:
+            crashed += 1        # a crash under an allocation failure is outside what C13 claims: counted, not judged
+            continue
+        n = int(a["allocs"]) + 1
+        tot += n
+        crashed += int(a.get("other", "0"))
+        ctx.outcomes.add(("alloc", a["opened"] != "0"))
+        ctx.states += n; ctx.evaluations += n; ctx.transitions += n
+        if a["differ"] != "-":
+            ctx.violation({"check": "C13", "predicate": "report-differs-under-allocation-failure"},
+                          "%s: opens while allocation #%s of the open returns NULL, and the getters report something else than on a healthy open" % (nm, a["differ"]),
+                          {"alloc": True, "file": f.hex()})
+    ctx.bounds["allocation_failures"] = "%d files x every single allocation of zck_init_read failing (%d opens)" % (len(files), tot)
+    ctx.extra["allocation_failure_part"] = {"opens": tot, "cases_not_judged_because_the_open_crashed": crashed}
+
+
 def run(ctx):
     stability(ctx)
+    alloc_part(ctx)
     sp = specs(ctx)
     ctx.rule = ("case = one sealed header (field tuple, mutation, padding); distinct by construction; non-trivial = header "
                 "with a size >= 2^31 or a re-sealed mutation")
@@ -279,6 +311,10 @@ def dec(j):
 
 
 def replay(case, quiet=True):
+    if case.get("alloc"):
+        cs = core.drv("meta", "allocfail 1\nfile %s\n" % case["file"])
+        a = cs[0].first("A")
+        return {"violated": cs[0].done and a is not None and a["differ"] != "-", "detail": a}
     if case.get("stability"):
         f = bytes.fromhex(case["file"])
         cs = core.drv("scan", "sched 7\npeer %s\ndisk %s\nhist %s\n" % (f.hex(), f.hex(), case["hist"]))
